@@ -416,6 +416,7 @@ type c02World struct {
 	tainted                                       map[string]bool // pods whose binding already violates C02 through a listed finding
 	overDemand                                    int             // settle rounds in which addresses were requested although enough were idle
 	inSettle                                      bool
+	writeLost                                     bool              // a record write failed and no later pass has persisted a full sync yet
 	settleTail                                    [][]cloudctl.Call // calls of the last settle rounds
 	nilMapHit                                     map[string]bool   // "<eni>/<4|6>": a full sync was told addresses of a family the record held no map for
 
